@@ -8,7 +8,8 @@ once and marked) and returns [(Template, conditions, in_loop)] for every appende
 """
 import ast
 import re
-from .model import norm, dotted, walk_no_nested
+import itertools
+from .model import norm, dotted, walk_no_nested, AnalysisError
 
 CONV_RE = re.compile(r'%(?P<flags>[-+ #0]*)(?P<width>\*|\d+)?(?:\.(?P<prec>\*|\d+))?(?P<type>[diouxXeEfFgGcrsa%])')
 MAX_PATHS = 512
@@ -56,9 +57,220 @@ class ListVal:
         self.open = open_       # appended to inside a loop -> repeated entries
 
 
+def _copy_replace(n, target, repl):
+    """field-wise copy of the AST n with the node `target` (by identity) replaced by `repl`"""
+    if n is target:
+        return repl
+    if not isinstance(n, ast.AST):
+        return n
+    new = n.__class__()
+    for fld, val in ast.iter_fields(n):
+        if isinstance(val, list):
+            setattr(new, fld, [_copy_replace(x, target, repl) for x in val])
+        else:
+            setattr(new, fld, _copy_replace(val, target, repl))
+    for a in ('lineno', 'col_offset', 'end_lineno', 'end_col_offset'):
+        if hasattr(n, a):
+            setattr(new, a, getattr(n, a))
+    return new
+
+
+def _walk_stmt_exprs(st):
+    """expression nodes evaluated by the simple statement st, outside lambdas / comprehensions"""
+    todo = [st]
+    while todo:
+        n = todo.pop()
+        yield n
+        for c in ast.iter_child_nodes(n):
+            if isinstance(c, (ast.Lambda, ast.GeneratorExp, ast.ListComp, ast.SetComp, ast.DictComp)):
+                continue
+            todo.append(c)
+
+
+_PURE_CALLS = ('isinstance', 'len', 'bool', 'hasattr')
+
+
+def _is_pure_test(e):
+    for n in ast.walk(e):
+        if isinstance(n, ast.Call):
+            if not (isinstance(n.func, ast.Name) and n.func.id in _PURE_CALLS):
+                return False
+        elif isinstance(n, (ast.Lambda, ast.GeneratorExp, ast.ListComp, ast.NamedExpr, ast.Await, ast.Yield)):
+            return False
+    return True
+
+
 class Evaluator:
-    def __init__(self, func):
+    """ctx (optional) enables looking through helper methods: a call self.<helper>(...) whose
+    value is a line, a tuple of values or a list of lines is evaluated in place (arguments
+    substituted), each path of the helper becoming a path of the caller."""
+
+    def __init__(self, func, ctx=None, depth=2, body=None):
         self.func = func
+        self.ctx = ctx
+        self.depth = depth
+        self._body = body if body is not None else func.body()
+        self._chosen = {}
+        # locals assigned exactly once, outside loops, to a side-effect free test expression:
+        # a later `if name:` is the test itself (boolean temporaries must not hide a guard)
+        counts = {}
+        in_loop = set()
+        self.aliases = {}
+        for st in self._body:
+            for n in ast.walk(st):
+                if isinstance(n, ast.Name) and isinstance(n.ctx, (ast.Store, ast.Del)):
+                    counts[n.id] = counts.get(n.id, 0) + 1
+                if isinstance(n, (ast.For, ast.While)):
+                    for x in ast.walk(n):
+                        if isinstance(x, ast.Name) and isinstance(x.ctx, ast.Store):
+                            in_loop.add(x.id)
+        self.multi = {k for k, v in counts.items() if v > 1} | in_loop
+        self.stored_attrs = set()
+        for st in self._body:
+            for n in ast.walk(st):
+                if isinstance(n, ast.Attribute) and isinstance(n.ctx, ast.Store):
+                    self.stored_attrs.add(n.attr)
+        for st in self._body:
+            for n in ast.walk(st):
+                if isinstance(n, ast.Assign) and len(n.targets) == 1 and isinstance(n.targets[0], ast.Name):
+                    nm = n.targets[0].id
+                    if nm not in self.multi and nm not in func.all_params and \
+                       isinstance(n.value, (ast.Compare, ast.UnaryOp, ast.BoolOp)) and _is_pure_test(n.value):
+                        self.aliases[nm] = n.value
+
+    # ---------------------------------------------------------------- conditions
+    def atoms(self, test, val, depth=0):
+        """the test `test` having truth value `val` as a tuple of (text, bool) atoms"""
+        if depth > 8:
+            return ((norm(test), val),)
+        if isinstance(test, ast.Name) and test.id in self.aliases:
+            return self.atoms(self.aliases[test.id], val, depth + 1)
+        if isinstance(test, ast.UnaryOp) and isinstance(test.op, ast.Not):
+            return self.atoms(test.operand, not val, depth + 1)
+        if isinstance(test, ast.BoolOp) and ((isinstance(test.op, ast.And) and val) or
+                                             (isinstance(test.op, ast.Or) and not val)):
+            out = ()
+            for v in test.values:
+                out += self.atoms(v, val, depth + 1)
+            return out
+        if isinstance(test, ast.BoolOp):
+            # a compound that cannot be split: spell it with the aliases resolved
+            parts = []
+            for v in test.values:
+                sub = self.atoms(v, True, depth + 1)
+                parts.append(' and '.join(('%s' if b else 'not %s') % (t if ' ' not in t else '(%s)' % t)
+                                          for t, b in sub))
+            joiner = ' and ' if isinstance(test.op, ast.And) else ' or '
+            return ((joiner.join(parts), val),)
+        if isinstance(test, ast.Compare) and len(test.ops) == 1 and isinstance(test.ops[0], (ast.IsNot, ast.NotEq)):
+            pos = ast.Compare(left=test.left, ops=[ast.Is() if isinstance(test.ops[0], ast.IsNot) else ast.Eq()],
+                              comparators=test.comparators)
+            return ((norm(pos), not val),)
+        return ((norm(test), val),)
+
+    def _prunable(self, text):
+        try:
+            e = ast.parse(text, mode='eval').body
+        except SyntaxError:
+            return False
+        for n in ast.walk(e):
+            if isinstance(n, ast.Name) and n.id in self.multi:
+                return False
+            if isinstance(n, ast.Attribute) and n.attr in self.stored_attrs:
+                return False
+            if isinstance(n, ast.Call) and not (isinstance(n.func, ast.Name) and n.func.id in _PURE_CALLS):
+                return False
+        return True
+
+    def add_conds(self, conds, new):
+        """conds + new, or None when the path is infeasible (an atom and its negation)"""
+        out = conds
+        for (t, b) in new:
+            if isinstance(b, bool) and (t, not b) in out and self._prunable(t):
+                return None
+            if (t, b) not in out:
+                out = out + ((t, b),)
+        return out
+
+    # ---------------------------------------------------------------- helper calls
+    def helper_paths(self, call):
+        """[(value, conds)] for a call of a method of the same class (or a module function) that
+        builds text: value is a template / TupleVal / ListVal.  None when not applicable."""
+        if self.ctx is None or self.depth <= 0 or not isinstance(call, ast.Call):
+            return None
+        key = id(call)
+        cache = self.__dict__.setdefault('_hp_cache', {})
+        if key in cache:
+            return cache[key]
+        cache[key] = None
+        g = None
+        recv = None
+        fn = call.func
+        m = self.ctx.model
+        if isinstance(fn, ast.Attribute) and isinstance(fn.value, ast.Name) and fn.value.id in ('self', 'cls') \
+           and self.func.cls is not None:
+            g = m.resolve_method(self.func.cls.name, fn.attr)
+        elif isinstance(fn, ast.Name):
+            g = m.funcs.get('%s.%s' % (self.func.module.name, fn.id))
+        if g is None or g.qual == self.func.qual or isinstance(g.node, ast.Lambda):
+            return None
+        if any(isinstance(a, ast.Starred) for a in call.args) or any(k.arg is None for k in call.keywords):
+            return None
+        if any(isinstance(n, (ast.Yield, ast.YieldFrom)) for n in walk_no_nested(g.node)):
+            return None
+        params = g.bound_params() if g.cls is not None else list(g.all_params)
+        stored = {n.id for n in ast.walk(g.node) if isinstance(n, ast.Name) and isinstance(n.ctx, ast.Store)}
+        if set(params) & stored:
+            return None
+        from .poly import subst_names
+        bind = {}
+        for p_, a in zip(params, call.args):
+            bind[p_] = a
+        for k in call.keywords:
+            bind[k.arg] = k.value
+        # defaults of parameters that were not passed
+        a_ = g.node.args
+        pos = a_.posonlyargs + a_.args
+        for p_, d in zip(pos[len(pos) - len(a_.defaults):], a_.defaults):
+            bind.setdefault(p_.arg, d)
+        for p_, d in zip(a_.kwonlyargs, a_.kw_defaults):
+            if d is not None:
+                bind.setdefault(p_.arg, d)
+        if any(p_ not in bind for p_ in params):
+            return None
+        body = [subst_names(st, bind) for st in g.body()]
+        sub = Evaluator(g, self.ctx, self.depth - 1, body=body)
+        finals = sub._paths(body, {}, [], (), False)
+        res = []
+        for (env, out, conds, ret) in finals:
+            if not isinstance(ret, ast.Return) or ret.value is None:
+                if ret == 'raise':
+                    continue
+                return None
+            res.append((sub.value_of(ret.value, env), conds))
+        if not res:
+            return None
+        cache[key] = res
+        return res
+
+    def _call_value(self, e):
+        """abstract value of a helper call (single path, or the path chosen for this statement)"""
+        if id(e) in self._chosen:
+            return self._chosen[id(e)]
+        hp = self.helper_paths(e)
+        if hp is not None and len(hp) == 1:
+            return hp[0][0]
+        return None
+
+    def value_of(self, v, env):
+        tv = self.tuple_of(v, env)
+        if tv is not None and not (isinstance(v, ast.Call) and isinstance(v.func, ast.Name)
+                                   and v.func.id == 'format_float'):
+            return tv
+        lv = self.list_of(v, env)
+        if lv is not None:
+            return ListVal(list(lv.items), lv.open)
+        return self.template(v, env)
 
     # ---------------------------------------------------------------- expressions
     def tuple_of(self, e, env):
@@ -72,6 +284,10 @@ class Evaluator:
             return TupleVal(items)
         if isinstance(e, ast.Name) and isinstance(env.get(e.id), TupleVal):
             return env[e.id]
+        if isinstance(e, ast.Call):
+            cv = self._call_value(e)
+            if isinstance(cv, TupleVal):
+                return cv
         if isinstance(e, ast.BinOp) and isinstance(e.op, ast.Add):
             a = self.tuple_of(e.left, env)
             b = self.tuple_of(e.right, env)
@@ -113,6 +329,9 @@ class Evaluator:
             return self.apply(l, e.right, env)
         if isinstance(e, ast.Call):
             fn = e.func
+            cv = self._call_value(e)
+            if isinstance(cv, list):
+                return list(cv)
             if isinstance(fn, ast.Attribute) and fn.attr == 'join' and len(e.args) == 1:
                 sep = self.template(fn.value, env)
                 septxt = ''.join(p[1] for p in sep if p[0] == 'lit') if all(p[0] == 'lit' for p in sep) else None
@@ -154,6 +373,8 @@ class Evaluator:
                     out.append(('lit', v.value))
                 elif isinstance(v, ast.FormattedValue):
                     spec = '%s'
+                    if v.format_spec is not None and all(isinstance(x, ast.Constant) for x in v.format_spec.values):
+                        spec = _spec_from_format(''.join(x.value for x in v.format_spec.values))
                     out.append(('conv', spec, v.value))
             return merge_lits(out)
         if isinstance(e, ast.IfExp):
@@ -167,6 +388,15 @@ class Evaluator:
             return ListVal([self.template(x, env) for x in e.elts])
         if isinstance(e, ast.Name) and isinstance(env.get(e.id), ListVal):
             return env[e.id]
+        if isinstance(e, ast.Call):
+            cv = self._call_value(e)
+            if isinstance(cv, ListVal):
+                return ListVal(list(cv.items), cv.open)
+            if isinstance(e.func, ast.Name) and e.func.id == 'list' and len(e.args) == 1:
+                return self.list_of(e.args[0], env)
+        if isinstance(e, (ast.ListComp, ast.GeneratorExp)) and len(e.generators) == 1:
+            el = self.template(e.elt, env)
+            return ListVal([[('var', norm(e.generators[0].iter), el, None)]], True)
         if isinstance(e, ast.BinOp) and isinstance(e.op, ast.Mult):
             l = self.list_of(e.left, env)
             if l is not None and isinstance(e.right, ast.Constant) and isinstance(e.right.value, int):
@@ -185,6 +415,10 @@ class Evaluator:
             if len(convs) == 1:
                 out[convs[0]] = ('conv', tmpl[convs[0]][1], right)
                 out = self._expand_s(out, env)
+            elif len(convs) > 1 and not isinstance(right, ast.Name):
+                # several conversions fed from one tuple-valued expression
+                for i in convs:
+                    out[i] = ('conv', tmpl[i][1], ('star', right))
             return out
         items = tv.items
         # bind from the left up to the first star, from the right down to the last star
@@ -218,12 +452,16 @@ class Evaluator:
         """[(Template, conds, in_loop, node, path conds)]"""
         results = []
         self.npaths = 0
-        finals = self._paths(self.func.body(), {}, [], (), False)
+        finals = self._paths(self._body, {}, [], (), False)
         for (env, out, conds, ret) in finals:
             self.npaths += 1
             if ret is not None:
                 self._return(ret, env, out, conds, results)
-        return results
+        lines = []
+        for (t, c, il, node, pc) in results:
+            for (t2, rep) in split_lines(t):
+                lines.append((t2, c, il or rep, node, pc))
+        return lines
 
     def _paths(self, stmts, env, out, conds, in_loop):
         """enumerate paths through stmts; returns [(env, out, conds, return stmt or None)];
@@ -236,9 +474,11 @@ class Evaluator:
                     nxt.append((e, o, c, r))
                     continue
                 if isinstance(st, ast.If):
-                    t = norm(st.test)
-                    nxt += self._paths(st.body, self._copy(e), list(o), c + ((t, True),), in_loop)
-                    nxt += self._paths(st.orelse, self._copy(e), list(o), c + ((t, False),), in_loop)
+                    for val, blk in ((True, st.body), (False, st.orelse)):
+                        c2 = self.add_conds(c, self.atoms(st.test, val))
+                        if c2 is None:
+                            continue        # contradicts a test passed earlier on this path
+                        nxt += self._paths(blk, self._copy(e), list(o), c2, in_loop)
                 elif isinstance(st, (ast.For, ast.While)):
                     lc = ('loop', norm(st.iter) if isinstance(st, ast.For) else norm(st.test))
                     body = self._paths(st.body, self._copy(e), [], c + (lc,), True)
@@ -246,8 +486,11 @@ class Evaluator:
                     o2 = list(o)
                     seen = set()
                     for (be, bo, bc, br) in body:
+                        ordinal = {}
                         for ent in bo:
-                            k = (template_text(ent[0]), ent[1])
+                            ordinal[id(ent[3])] = ordinal.get(id(ent[3]), 0) + 1
+                            k = (template_text(ent[0]), ent[1], tuple(arg_text(p_[2]) for p_ in ent[0] if p_[0] == 'conv'),
+                                 id(ent[3]), ordinal[id(ent[3])])
                             if k not in seen:
                                 seen.add(k)
                                 o2.append((ent[0], ent[1], True, ent[3]))
@@ -260,17 +503,63 @@ class Evaluator:
                                             e2[name].items.append(it)
                     nxt.append((e2, o2, c, None))
                 elif isinstance(st, ast.Return):
-                    nxt.append((e, o, c, st))
+                    ife = None
+                    for x in _walk_stmt_exprs(st):
+                        if isinstance(x, ast.IfExp) and _is_pure_test(x.test):
+                            ife = x
+                            break
+                    if ife is not None:
+                        alt = ast.If(test=ife.test, body=[_copy_replace(st, ife, ife.body)],
+                                     orelse=[_copy_replace(st, ife, ife.orelse)])
+                        ast.copy_location(alt, st)
+                        nxt += self._paths([alt], e, o, c, in_loop)
+                    else:
+                        nxt.append((e, o, c, st))
                 elif isinstance(st, ast.Raise):
                     nxt.append((e, o, c, 'raise'))
                 elif isinstance(st, (ast.Continue, ast.Break)):
                     nxt.append((e, o, c, 'jump'))
+                elif isinstance(st, ast.Return) and False:
+                    pass
                 else:
+                    # a conditional expression forks the path like an if statement
+                    ife = None
+                    for x in _walk_stmt_exprs(st):
+                        if isinstance(x, ast.IfExp) and _is_pure_test(x.test):
+                            ife = x
+                            break
+                    if ife is not None:
+                        alt = ast.If(test=ife.test, body=[_copy_replace(st, ife, ife.body)],
+                                     orelse=[_copy_replace(st, ife, ife.orelse)])
+                        ast.copy_location(alt, st)
+                        nxt += self._paths([alt], e, o, c, in_loop)
+                        continue
+                    # helper calls with several paths: one caller path per helper path
+                    multi = []
+                    for x in _walk_stmt_exprs(st):
+                        if isinstance(x, ast.Call):
+                            hp = self.helper_paths(x)
+                            if hp is not None and len(hp) > 1:
+                                multi.append((x, hp))
+                    if multi and not isinstance(st, ast.Return):
+                        for combo in itertools.product(*[hp for x, hp in multi]):
+                            c2 = c
+                            for (val, hc) in combo:
+                                if c2 is not None:
+                                    c2 = self.add_conds(c2, [a for a in hc if a[0] != 'loop'])
+                            if c2 is None:
+                                continue
+                            self._chosen = {id(x): val for (x, hp), (val, hc) in zip(multi, combo)}
+                            e2, o2 = self._copy(e), list(o)
+                            self._simple(st, e2, o2, c2, in_loop)
+                            self._chosen = {}
+                            nxt.append((e2, o2, c2, None))
+                        continue
                     self._simple(st, e, o, c, in_loop)
                     nxt.append((e, o, c, None))
             states = nxt
             if len(states) > MAX_PATHS:
-                states = states[:MAX_PATHS]
+                raise AnalysisError('%s: more than %d paths through the writer' % (self.func.qual, MAX_PATHS))
         if in_loop:
             # continue/break end the iteration, not the function
             states = [(e, o, c, None if r == 'jump' else r) for (e, o, c, r) in states]
@@ -299,6 +588,10 @@ class Evaluator:
             lv = self.list_of(v, env)
             if lv is not None:
                 env[name] = ListVal(list(lv.items), lv.open)
+                if isinstance(v, ast.Call) and lv.items:
+                    # lines produced by a helper are emissions of this writer
+                    for t in lv.items:
+                        out.append((t, conds, in_loop or lv.open, v))
                 return
             env[name] = self.template(v, env)
             return
@@ -310,6 +603,8 @@ class Evaluator:
             elif isinstance(cur, TupleVal):
                 tv = self.tuple_of(st.value, env)
                 env[name] = TupleVal(cur.items + (tv.items if tv else [('star', st.value)]))
+            elif isinstance(cur, ListVal):
+                self._extend(cur, st.value, env, out, conds, in_loop, st)
             return
         if isinstance(st, ast.Expr) and isinstance(st.value, ast.Call):
             c = st.value
@@ -323,7 +618,22 @@ class Evaluator:
                     if in_loop:
                         lv.open = True
                     out.append((t, conds, in_loop, c))
+            elif isinstance(c.func, ast.Attribute) and c.func.attr == 'extend' and \
+                    isinstance(c.func.value, ast.Name) and len(c.args) == 1:
+                lv = env.get(c.func.value.id)
+                if isinstance(lv, ListVal):
+                    self._extend(lv, c.args[0], env, out, conds, in_loop, c)
             return
+
+    def _extend(self, lv, arg, env, out, conds, in_loop, node):
+        add = self.list_of(arg, env)
+        if add is None:
+            add = ListVal([[('unk', norm(arg))]], True)
+        for t in add.items:
+            lv.items.append(t)
+            out.append((t, conds, in_loop or add.open, node))
+        if in_loop or add.open:
+            lv.open = True
 
     def _return(self, st, env, out, conds, results):
         if not isinstance(st, ast.Return):
@@ -353,6 +663,37 @@ class Evaluator:
             return
         t = self.template(v, env)
         results.append((t, conds, False, st, conds))
+
+
+def split_lines(t):
+    """[(line template, repeated?)]: a template containing newlines (a nested writer was looked
+    through) is several lines; a newline-separated repetition contributes its element as a
+    repeated line"""
+    if not any((p[0] == 'lit' and '\n' in p[1]) or (p[0] == 'var' and p[3] is not None and '\n' in p[3]) for p in t):
+        return [(t, False)]
+    out = []
+    cur = []
+    for p in t:
+        if p[0] == 'lit' and '\n' in p[1]:
+            parts = p[1].split('\n')
+            for i, part in enumerate(parts):
+                if i:
+                    out.append((merge_lits(cur), False))
+                    cur = []
+                if part:
+                    cur.append(('lit', part))
+        elif p[0] == 'var' and p[3] is not None and '\n' in p[3]:
+            if cur:
+                out.append((merge_lits(cur), False))
+                cur = []
+            if p[2]:
+                for (t2, rep) in split_lines(p[2]):
+                    out.append((t2, True))
+        else:
+            cur.append(p)
+    if cur:
+        out.append((merge_lits(cur), False))
+    return [(t2, rep) for (t2, rep) in out if t2]
 
 
 def template_text(t):
@@ -416,3 +757,90 @@ def written_values(e, flow=None, at=None, depth=0):
 
 def _is_tuple_producer(e):
     return isinstance(e, ast.Call) and isinstance(e.func, ast.Name) and e.func.id in ('tuple', 'format_float')
+
+
+# ---------------------------------------------------------------- printed values (all format styles)
+_FIELD_RE = re.compile(r'\{([^{}:!]*)(?:![rsa])?(?::([^{}]*))?\}')
+
+
+def _spec_from_format(spec):
+    """python format-spec ('6.2f', '>9', '') -> printf-like spec text used by the rules"""
+    if spec is None or spec == '':
+        return '%s'
+    mo = re.match(r'^(?P<fill>.?[<>=^])?(?P<sign>[-+ ])?#?0?(?P<width>\d+)?,?(?:\.(?P<prec>\d+))?(?P<type>[bcdeEfFgGnosxX%])?$', spec)
+    if not mo:
+        return '%s'
+    t = mo.group('type') or 's'
+    if t == 'n':
+        t = 'd'
+    out = '%' + (mo.group('sign') or '') + (mo.group('width') or '')
+    if mo.group('prec') is not None:
+        out += '.' + mo.group('prec')
+    return out + t
+
+
+def _const_str(e, flow, at):
+    try:
+        from .model import const_value
+        v = const_value(e)
+        return v if isinstance(v, str) else None
+    except Exception:
+        pass
+    if isinstance(e, ast.Name) and flow is not None and e.id in flow.rd.names:
+        sd = flow.single_def(e.id, at)
+        if sd is not None:
+            return _const_str(sd[0], flow, sd[1])
+    return None
+
+
+def printed_values(func, flow=None):
+    """[(spec or None, value expr or None, node)] for every value formatted into text by func:
+    %-formats (left side literal or a local bound to a literal), f-strings, str.format"""
+    out = []
+    for n in walk_no_nested(func.node):
+        at = flow.node_id_of(n) if flow is not None else None
+        if isinstance(n, ast.BinOp) and isinstance(n.op, ast.Mod):
+            txt = _const_str(n.left, flow, at)
+            vals = written_values(n.right, flow, at)
+            if txt is not None:
+                specs = [mo.group(0) for mo in CONV_RE.finditer(txt) if mo.group('type') != '%']
+                if len(vals) == len(specs):
+                    out += [(sp, v, n) for sp, v in zip(specs, vals)]
+                else:
+                    head = []
+                    for v in vals:
+                        if isinstance(v, (ast.Subscript, ast.Starred)) or (
+                                isinstance(v, ast.Name) and flow is not None and v.id in flow.rd.names):
+                            break
+                        head.append(v)
+                    vv = (head + [None] * len(specs))[:len(specs)]
+                    out += [(sp, v, n) for sp, v in zip(specs, vv)]
+            else:
+                out += [(None, v, n) for v in vals]
+        elif isinstance(n, ast.JoinedStr):
+            for v in n.values:
+                if isinstance(v, ast.FormattedValue):
+                    spec = None
+                    if v.format_spec is not None and all(isinstance(x, ast.Constant) for x in v.format_spec.values):
+                        spec = ''.join(x.value for x in v.format_spec.values)
+                    elif v.format_spec is None:
+                        spec = ''
+                    out.append((_spec_from_format(spec) if spec is not None else None, v.value, n))
+        elif isinstance(n, ast.Call) and isinstance(n.func, ast.Attribute) and n.func.attr == 'format':
+            txt = _const_str(n.func.value, flow, at)
+            if txt is not None:
+                fields = _FIELD_RE.findall(txt.replace('{{', '').replace('}}', ''))
+                pos = 0
+                for name, spec in fields:
+                    val = None
+                    if name == '' and pos < len(n.args):
+                        val = n.args[pos]
+                        pos += 1
+                    elif name.isdigit() and int(name) < len(n.args):
+                        val = n.args[int(name)]
+                    else:
+                        for kw in n.keywords:
+                            if kw.arg == name.split('.')[0].split('[')[0]:
+                                val = kw.value
+                    out.append((_spec_from_format(spec), val, n))
+    return out
